@@ -99,7 +99,7 @@ def cases(ctx):
                "normalize": [None, "by_overall", "by_min"][int(rng.integers(0, 3))], "boot": boot, "bm": str(rng.choice(["quantile", "bc", "bca"])),
                "nb_samples": int(rng.choice([20, 50, 120])), "strat": [None, "by_group", "by_label"][int(rng.integers(0, 3))],
                "alpha": float(rng.choice([0.05, 0.1, 0.32])), "sc": sc, "ec": ec, "default_cfg": bool(rng.random() < 0.2),
-               "index": str(rng.choice(["range", "range", "shuffled", "duplicated", "strings"])), "extra_col": bool(rng.random() < 0.3),
+               "index": str(rng.choice(["range", "range", "shuffled", "duplicated", "strings", "permuted_range", "permuted_range"])), "extra_col": bool(rng.random() < 0.3),
                "gdtype": str(rng.choice(["plain", "plain", "plain", "cat_lex", "cat_perm", "cat_perm"])),
                "_seed": int(rng.integers(1 << 31))}
 
@@ -155,7 +155,9 @@ def execute(ctx, case):
                 cats = [cats[i] for i in rs_.permutation(len(cats))]
             df[c] = pd.Categorical(cols[c], categories=cats, ordered=bool(gd == "cat_perm" and rs_.random() < 0.5))
     idx_kind = case.get("index", "range")
-    if idx_kind == "shuffled":
+    if idx_kind == "permuted_range":  # what a frame looks like after sort_values()/sample(frac=1) without reset_index: labels 0..n-1 in another order
+        df.index = np.random.default_rng(case["_seed"]).permutation(len(df))
+    elif idx_kind == "shuffled":
         df.index = np.random.default_rng(case["_seed"]).permutation(len(df)) * 3 + 7
     elif idx_kind == "duplicated":
         df.index = np.arange(len(df)) // 2
